@@ -4336,7 +4336,7 @@ _dbus_message_loader_get_buffer (DBusMessageLoader  *loader,
           /* Skip over entire messages until we have less than a message
            * remaining. */
           needed = header_len + body_len;
-          _dbus_assert (needed > DBUS_MINIMUM_HEADER_SIZE);
+          _dbus_assert (needed >= DBUS_MINIMUM_HEADER_SIZE);
           _dbus_assert (remain >= needed);
           remain -= needed;
           offset += needed;
